@@ -709,5 +709,14 @@ impl PartialEq for Cell { #[verifier::external_body] fn eq(&self, other: &Self) 
 #[verifier::external_body] fn verif_len_lit() -> (r: Cell) ensures r == len_lit() { unimplemented!() }
 #[verifier::external_body] fn verif_big_lit() -> (r: Cell) ensures r == big_lit() { unimplemented!() }
 
+// small State getters a changed body may start to use (assumed renderings of verified contracts; unit state proves them)
+impl State {
+//@use state.fns State::data_depth assumed
+//@use state.fns State::top_data assumed
+//@use state.fns State::is_running assumed
+//@use state.fns State::ip assumed
+//@use state.fns State::is_recording assumed
+}
+
 } // verus!
 fn main() {}
